@@ -132,7 +132,12 @@ Definition diag (qs : list query) (c : case) :=
 (* the blocking loop: a case is the script the real blockingquery.Query ran against *)
 Record loopcase := LoopCase { lc_min : N; lc_rounds : list (N * qerr * wake); lc_final : N;
                               lc_calls : nat; lc_kind : N (* 0 index 1 timeout 2 abandon 3 non-blocking *) }.
+#[global] Instance exit_reason_eq_dec : EqDecision exit_reason. Proof. solve_decision. Defined.
 Definition loop_check (c : loopcase) : bool :=
+  (* the number of times the real loop ran the query = the number of rounds the model consumes:
+     the script holds exactly the calls made, and the model must not leave before the last one *)
+  bool_decide (lc_calls c = List.length (lc_rounds c)) &&
+  (bool_decide (lc_min c = 0) || bool_decide (blocking_query (lc_min c) (removelast (lc_rounds c)) = XStuck)) &&
   match blocking_query (lc_min c) (lc_rounds c) with
   | XIndex i => bool_decide (lc_kind c = 0) && bool_decide (i = lc_final c)
   | XTimeout i => bool_decide (lc_kind c = 1) && bool_decide (i = lc_final c)
